@@ -12,6 +12,7 @@ import copy
 import os
 
 from harness import tlc
+from harness.tlaval import to_py
 from harness.replay import timestamps as rt
 from harness.replay._walks import covering_walks
 
@@ -35,7 +36,7 @@ META = {
 }
 
 INV = ["TypeOK", "Mutex", "StrictlyIncreasing", "NotBehindClock", "LastIsMax"]
-WITNESSES = ["Witness_Drift", "Witness_BackwardsClock", "Witness_Contention", "Witness_AllDone"]
+WITNESSES = ["Drift", "BackwardsClock", "Contention", "AllDone"]
 
 
 def cfg_for(ctx, name, consts, invariants=INV, **kw):
@@ -47,7 +48,8 @@ def run(ctx):
     # ---- the specification, exhaustively
     big = [{"N": 3, "K": 2, "M": 1}] if ctx.quick else [{"N": 3, "K": 2, "M": 3}]
     for consts in big:
-        res = tlc.check_model("Timestamps", cfg_for(ctx, "ts_big", consts), ctx.scratch, coverage=True, timeout=1500)
+        res = tlc.check_model("Timestamps", cfg_for(ctx, "ts_big", consts, next="NextW"), ctx.scratch, coverage=True,
+                              timeout=1500)
         ctx.add_tlc(res, "exhaustive %s" % consts)
         if res.violation:
             ctx.violation("TLC: %s violated on Timestamps.tla" % res.invariant,
@@ -58,11 +60,9 @@ def run(ctx):
         zero = [a for a in ("Acquire", "ReadClock", "Compute", "Release") if a not in cov or cov[a][1] == 0]
         if zero:
             raise tlc.MachineryError("actions never taken: %s (coverage keys %s)" % (zero, sorted(cov)))
-    wconsts = {"N": 2, "K": 2, "M": 2}
-    for w in WITNESSES:
-        wres = tlc.check_model("Timestamps", cfg_for(ctx, w, wconsts, invariants=[w]), ctx.scratch, timeout=600, workers=4)
-        if wres.invariant != w:
-            raise tlc.MachineryError("vacuity witness %s not reachable" % w)
+        unreached = [w for w in WITNESSES if cov.get("W_" + w, (0, 0))[1] == 0]
+        if unreached:
+            raise tlc.MachineryError("vacuity witnesses not reachable: %s" % unreached)
     ctx.note("vacuity_witnesses_reached", len(WITNESSES))
     # termination: every behaviour finishes all calls (fair scheduling of the enabled steps)
     lcfg = tlc.write_cfg(os.path.join(ctx.scratch, "live.cfg"), spec="FairSpec", constants={"N": 2, "K": 2, "M": 1},
@@ -110,7 +110,7 @@ def run(ctx):
                 if sig not in seen:
                     seen.add(sig)
                     ctx.violation("replay diverges at step %d (%s): %s" % (d["step"], d["action"], d["diff"]),
-                                  replay={"constants": consts, "states": [dict(s) for s in states[:d["step"] + 1]],
+                                  replay={"constants": consts, "states": [to_py(s) for s in states[:d["step"] + 1]],
                                           "divergence": d}, signature=sig)
     ctx.traces_validated += replayed - diverged
     ctx.note("behaviours_replayed", replayed)
